@@ -37,7 +37,11 @@ contract(E + "ErrorExtraction.get_fields_for_exception", props=["C03", "C07"], c
 
 contract(T + "write_traceback", props=["C07", "C13", "C03"], cycle="extract", decreases="ite(_extract_fields, 2, 0)",
          types={"logger": "Opt[role:ILogger]", "exc_info": "Opt[tuple]", "_extract_fields": "bool"}, returns="none",
-         requires=[("current-ok", "cur_ok()"), ("exc-info-is-a-triple", "implies(exc_info is not None, len(seq(exc_info)) == 3)")],
+         handling=True,
+         assumes=[("E11 (no dangling references inside containers): the exception object in exc_info exists", "implies(exc_info is not None, allocated(seq(exc_info)[1]))")],
+         requires=[("current-ok", "cur_ok()"),
+                   ("exc-info-is-a-triple-holding-an-exception", "implies(exc_info is not None, len(seq(exc_info)) == 3 and isinst(seq(exc_info)[1], 'BaseException'))"),
+                   ("called-with-exc_info-or-while-an-exception-is-being-handled (documented: call it from an except block)", "exc_info is not None or handling_exception()")],
          modifies=LOGGING_FRAME + ["field:$uuid_str"], ghosts={"R": "seqe", "R1": "seqe"}, ghost_defaults={"R1": "empty_log()"},
          after={"ErrorExtraction.get_fields_for_exception#0": [("R1", "R")], "log_message#0": [("R", "R1 + [E] + R")]},
          ensures=LOGGING_EFFECT + [
